@@ -59,7 +59,7 @@ pub fn apply_baseline_comparison(results: &mut [CheckResult], baseline: &Baselin
             continue;
         }
 
-        let path_str = result.path().to_string_lossy().replace('\\', "/");
+        let path_str = crate::baseline::baseline_key(result.path());
         if baseline.contains(&path_str) {
             // Replace the result with its grandfathered version
             let owned = std::mem::replace(
@@ -116,7 +116,7 @@ pub fn update_baseline_from_results(
             continue;
         }
 
-        let path_str = result.path().to_string_lossy().replace('\\', "/");
+        let path_str = crate::baseline::baseline_key(result.path());
         let is_structure = is_structure_violation_result(result);
 
         // Apply mode filtering
@@ -218,7 +218,7 @@ pub fn check_baseline_ratchet(results: &[CheckResult], baseline: &Baseline) -> R
     let current_failures: HashSet<String> = results
         .iter()
         .filter(|r| r.is_failed() || r.is_grandfathered())
-        .map(|r| r.path().to_string_lossy().replace('\\', "/"))
+        .map(|r| crate::baseline::baseline_key(r.path()))
         .collect();
 
     // Find baseline entries that are no longer violations
